@@ -2,7 +2,12 @@
 // dump of every AnalyserModel accessor the generated code is supposed to reflect.
 //
 //   c17_driver gen <case file>
-//       one case per line:   <path of a .cellml file> TAB <externals>
+//       one case per line:   <path of a .cellml file> TAB <externals> [TAB <profile history>]
+//       <profile history> = "-" or "<C|PY>:<i,j,k,...>": the profile object handed to the Generator is NOT a fresh built-in
+//       one: it is created with the given tag, customised through the public setters number i, j, k, ... of the table
+//       generated from the members of GeneratorProfileImpl (checks/c17.py writes it, macro C17_SETTERS_INC; strings are set
+//       to a marker text, flags are flipped), and then reset with setProfile(C) resp. setProfile(PYTHON).  The JSON then
+//       carries "hist":{"c_iface":b,"c_impl":b,"py_iface":b,"py_impl":b} = the text equals the one of a fresh profile.
 //       <externals> = "-" or a comma separated list of "component.variable" handed to Analyser::addExternalVariable
 //       (through AnalyserExternalVariable::create(variable)) before analyseModel.
 //       Files written:  <path>.h  <path>.c  (C profile: interfaceCode / implementationCode)
@@ -147,6 +152,43 @@ static std::string needFlags(const libcellml::AnalyserModelPtr &am)
     return s;
 }
 
+#ifdef C17_SETTERS_INC
+struct ProfileSetter
+{
+    const char *member;
+    void (*apply)(const libcellml::GeneratorProfilePtr &);
+};
+static const std::string MARK = "@@C17-MARKER@@";
+static const ProfileSetter PROFILE_SETTERS[] = {
+#    include C17_SETTERS_INC
+};
+static const size_t PROFILE_SETTER_COUNT = sizeof(PROFILE_SETTERS) / sizeof(PROFILE_SETTERS[0]);
+#else
+static const size_t PROFILE_SETTER_COUNT = 0;
+#endif
+
+// a profile object with a history: created with `init`, customised, then reset to `final` through setProfile()
+static libcellml::GeneratorProfilePtr historyProfile(const std::string &history, libcellml::GeneratorProfile::Profile final)
+{
+    auto colon = history.find(':');
+    auto init = (history.substr(0, colon) == "PY") ? libcellml::GeneratorProfile::Profile::PYTHON : libcellml::GeneratorProfile::Profile::C;
+    auto profile = libcellml::GeneratorProfile::create(init);
+#ifdef C17_SETTERS_INC
+    for (const auto &t : splitws(history.substr(colon + 1), ',')) {
+        if (t.empty()) {
+            continue;
+        }
+        size_t i = std::stoul(t);
+        if (i >= PROFILE_SETTER_COUNT) {
+            throw std::runtime_error("no such setter " + t);
+        }
+        PROFILE_SETTERS[i].apply(profile);
+    }
+#endif
+    profile->setProfile(final);
+    return profile;
+}
+
 struct Analysed
 {
     libcellml::ModelPtr model;
@@ -201,6 +243,7 @@ static std::string genCase(const std::string &line)
     auto fields = splitws(line, '\t');
     const std::string path = fields[0];
     const std::string externals = fields.size() > 1 ? fields[1] : "-";
+    const std::string history = fields.size() > 2 ? fields[2] : "-";
     auto a = analyse(path, externals);
     libcellml::AnalyserModelPtr am = a.analyser ? a.analyser->model() : nullptr;
 
@@ -213,6 +256,26 @@ static std::string genCase(const std::string &line)
     gen->setProfile(libcellml::GeneratorProfile::create(libcellml::GeneratorProfile::Profile::PYTHON));
     std::string pyIface = gen->interfaceCode();
     std::string pyImpl = gen->implementationCode();
+    std::string hist;
+    if (history != "-" && !history.empty()) {
+        // the same again with profile objects that have a history; THESE texts are the ones that are written and judged
+        auto hgen = libcellml::Generator::create();
+        if (am != nullptr) {
+            hgen->setModel(am);
+        }
+        hgen->setProfile(historyProfile(history, libcellml::GeneratorProfile::Profile::C));
+        auto hCIface = hgen->interfaceCode();
+        auto hCImpl = hgen->implementationCode();
+        hgen->setProfile(historyProfile(history, libcellml::GeneratorProfile::Profile::PYTHON));
+        auto hPyIface = hgen->interfaceCode();
+        auto hPyImpl = hgen->implementationCode();
+        hist = std::string(",\"hist\":{\"c_iface\":") + (hCIface == cIface ? "true" : "false") + ",\"c_impl\":" + (hCImpl == cImpl ? "true" : "false")
+               + ",\"py_iface\":" + (hPyIface == pyIface ? "true" : "false") + ",\"py_impl\":" + (hPyImpl == pyImpl ? "true" : "false") + "}";
+        cIface = hCIface;
+        cImpl = hCImpl;
+        pyIface = hPyIface;
+        pyImpl = hPyImpl;
+    }
 
     std::string lens = "\"c_iface_len\":" + std::to_string(cIface.size()) + ",\"c_impl_len\":" + std::to_string(cImpl.size())
                        + ",\"py_iface_len\":" + std::to_string(pyIface.size()) + ",\"py_impl_len\":" + std::to_string(pyImpl.size());
@@ -262,7 +325,7 @@ static std::string genCase(const std::string &line)
            + js(libcellml::versionString()) + ",\"stateCount\":" + std::to_string(am->stateCount()) + ",\"variableCount\":"
            + std::to_string(am->variableCount()) + ",\"equationCount\":" + std::to_string(am->equationCount()) + ",\"voi\":"
            + varRecord(am->voi()) + ",\"states\":[" + states + "],\"variables\":[" + variables + "],\"equations\":[" + eqs
-           + "],\"need\":" + js(needFlags(am)) + "," + lens + "," + counts + "}";
+           + "],\"need\":" + js(needFlags(am)) + "," + lens + "," + counts + hist + "}";
 }
 
 static std::string guardCase(const std::string &line)
@@ -310,6 +373,10 @@ int main(int argc, char **argv)
     }
     if (mode == "guards") {
         return runCases(cases, guardCase, 30);
+    }
+    if (mode == "setters") {
+        printf("%zu\n", PROFILE_SETTER_COUNT);
+        return 0;
     }
     fprintf(stderr, "unknown mode %s\n", mode.c_str());
     return 2;
